@@ -34,9 +34,9 @@ RULE = ("histories of 1..6 editing operations (list insert/append/pop, list-leve
         "ConfigList.remove(obj) / remove(foreign line) / remove(str); `del2` = delete() twice through the same handle "
         "(ConfigListItemDoesNotExist, IndexError, or a second deletion when an equal line has moved to the handle's number; configs with "
         "runs of equal texts make the last two happen). Stream `forms-rand` = 700 histories of 1..4 operations mixing these with the "
-        "old alphabet, every third one (ignore_blank_lines off) parsed with factory=True — there append_to_family is not generated "
-        "(always refused after a possible change of the target's children list, known finding F10e) and insert is expected to be "
-        "refused (F10e). Stream `cfi` = 260 direct calls of classify_family_indent (str / line object / other value; indents 0..8 against "
+        "old alphabet, every third one (ignore_blank_lines off) parsed with factory=True — there every operation, insert and "
+        "append_to_family included, is generated and judged like without the factory (both were always refused with InvalidParameters "
+        "before the repair of finding F10e; a refusal is now a violation). Stream `cfi` = 260 direct calls of classify_family_indent (str / line object / other value; indents 0..8 against "
         "widths 1 and 2); stream `det` = 120 replace_text / re_sub sequences on a line object that belongs to no configuration.")
 LEVEL_TEXT = ("Theorems (Lean 4, Ccp.Props.C06, for all states and payloads of the edit state machine; text effect of one step when the "
               "following commit does not filter, i.e. auto_commit off, or on without ignore_blank_lines): insert(k)/append/pop(k) are exactly "
@@ -98,9 +98,10 @@ LEVEL_TEXT = ("Theorems (Lean 4, Ccp.Props.C06, for all states and payloads of t
               "level: the line and its descendants, nothing else (remove_is_delete, remove_spec); delete() twice through one handle: "
               "always ConfigListItemDoesNotExist with auto_commit off; with auto_commit on refused unless the line now at the handle's "
               "number has the deleted line's text, in which case the stale numbers are deleted once more or IndexError is raised "
-              "(deleteTwice_spec); under factory=True insert is refused with InvalidParameters after the index check and before the value "
-              "check, append_to_family never changes the list, everything else is as without the factory (factory_insert_refused, known "
-              "finding F10e); classify_family_indent called directly accepts a str only and returns the level difference "
+              "(deleteTwice_spec); factory=True changes no editing call and no history (factory_neutral), so under the factory "
+              "ConfigList.insert -- str or line object -- is exactly list.insert and append_to_family adds exactly the one line of "
+              "appendToFamily_spec, a refused call changing nothing (factory_insert_spec, factory_appendToFamily_spec; they replace "
+              "factory_insert_refused, which stated the refusal of both before finding F10e was repaired in /repo); classify_family_indent called directly accepts a str only and returns the level difference "
               "(classify_direct); replace_text / re_sub on a detached line are the same text functions (detached_edit).")
 LEVEL_NOTE = ("Trusted: Lean kernel, standard axioms, harness. Regexes are oracle data (rows / substituted texts computed with re by the "
               "harness); str.replace is modelled for a non-empty 'before'. Partial: the same-indent append_to_family placement is proved as the "
@@ -115,10 +116,10 @@ LEVEL_NOTE = ("Trusted: Lean kernel, standard axioms, harness. Regexes are oracl
               "early — decided counterexample), payloads that start a family, delete / replace below the edit, ignore_blank_lines together "
               "with families; for those only C07's 'tree after commit = fresh parse' applies. Not covered: states with uncommitted changes "
               "(auto_commit off), where no tree exists until the commit. The list-level frame is stated over positions of the new list "
-              "(rank = old position), not as a closed formula old index -> new index. Known finding F10e: with factory=True "
-              "ConfigList.insert (hence append_to_family) always raises InvalidParameters — config_line_factory is called without all_lines; "
-              "modelled as the code does it (stepF), proposed patch notes/proposed-fixes/C06-2.patch; under factory=True a refused "
-              "append_to_family may already have put the new line into the target's children list (not modelled, not generated). "
+              "(rank = old position), not as a closed formula old index -> new index. Finding F10e (with factory=True ConfigList.insert, hence "
+              "append_to_family, always raised InvalidParameters: config_line_factory was called without all_lines) is repaired in /repo by "
+              "'fix: ConfigList.insert() passes all_lines to config_line_factory() under factory=True'; the model's stepF ignores the flag, and "
+              "the class the factory picks for a new line is not modelled (it is not observable in texts or links). "
               "Observed, outside the property (ConfigList.append is typed `value: str`): append(<BaseCfgLine or any non-str>) stores a line "
               "whose text is that object and then raises ValueError from the commit, leaving the list corrupted. Anchored lines never "
               "executed by the quick run: 113 of 379 before the input-form streams, 64 after; the rest is debug logging, branches that "
@@ -361,10 +362,6 @@ def cases(rng, tier):
         # every third history runs with factory=True (the lines are then built by config_line_factory)
         ops = rand_form_ops(rng, rng.choice([1, 2, 3, 4]), auto)
         factory = j % 3 == 0 and not ign      # (CiscoConfParse refuses factory together with ignore_blank_lines)
-        if factory:
-            # under factory=True append_to_family is always refused (through ConfigList.insert, known finding F10e)
-            # AFTER it may have put the new line into the target's children list: not modelled, not generated
-            ops = [o for o in ops if o[0] not in ("atf", "atfl")] or [["app", "x"]]
         yield E.mk_case(syntax, ign, auto, lines, ops, "forms-rand", factory=factory)
     yield from aux_cases(rng, tier)
 
@@ -870,8 +867,6 @@ def check_atf(case, op, i, prev, cur, dump_prev, dump_cur, width):
 
 
 def known_id(case, failure):
-    if case.get("factory") and "unexpected err:InvalidParameters" in failure and ("['ins'," in failure or "['insf'," in failure):
-        return "F10e"
     if "same-indent-reparent" in failure:
         return "F10b"
     if "noncfg-target-reparent" in failure:
